@@ -5,7 +5,7 @@
 From Coq Require Import List Bool NArith ZArith.
 From Coq.Strings Require Import Byte String.
 From Verif Require Import Base.Bytes Idl.Ast Idl.Lex Idl.LexFacts Idl.Parse Idl.ParseFacts Idl.Print Idl.PrintFacts.
-From Verif Require Import Idl.Peg Idl.PegGrammar Idl.PegFacts Idl.PegTotal.
+From Verif Require Import Idl.Peg Idl.PegGrammar Idl.PegFacts Idl.PegTotal Idl.PrintOrderFacts.
 Import ListNotations.
 Local Open Scope string_scope.
 
@@ -33,6 +33,27 @@ Theorem C03_parse_print :
   exists a', parse_tokens (f_filename a) lts fin = Some a' /\ strip_comments a' = strip_comments a.
 Proof. exact parse_tokens_conc. Qed.
 Print Assumptions C03_parse_print.
+
+(* parse_print for ANY source order: header lines (include / cpp_include / namespace) in any
+   interleaving and definitions of different kinds in any interleaving, written in any of
+   the ways [conc] allows with any blanks and comments: the parser returns [file_of n hs ds],
+   the file whose per-kind lists hold exactly the definitions written, in source order per
+   kind (duplicate / empty include paths dropped as parser.go does), up to recorded comments. *)
+Theorem C03_parse_print_any_order :
+  forall n hs ds lts fin,
+  forallb wf_header hs = true -> forallb wf_def ds = true ->
+  conc (flat_map protos_header hs ++ flat_map protos_def ds) (map snd lts) ->
+  exists a', parse_tokens n lts fin = Some a' /\ strip_comments a' = strip_comments (file_of n hs ds).
+Proof. exact parse_tokens_any_order. Qed.
+Print Assumptions C03_parse_print_any_order.
+
+Example C03_any_order_example :
+  let ds := [DEnum (Enum (B "E") [] [] []); DTypedef (Typedef (ty_named (B "i32")) (B "T") [] []);
+             DEnum (Enum (B "F") [] [] []); DStructLike (StructLike SKUnion (B "U") [] [] [])] in
+  forallb wf_def ds = true /\
+  map en_name (f_enums (file_of (B "m") [] ds)) = [B "E"; B "F"] /\
+  map sl_name (f_unions (file_of (B "m") [] ds)) = [B "U"] /\ f_structs (file_of (B "m") [] ds) = [].
+Proof. vm_compute. repeat split. Qed.
 
 (* parse_render: the composition on bytes, for the executable printer [render]. *)
 Theorem C03_parse_render :
